@@ -386,6 +386,38 @@ Proof.
   apply accept_iff in A. destruct A as (A & _). apply (NoDup_fid_eq ks); auto. congruence.
 Qed.
 
+(* the key whose (non-empty) prefix the input carries answers, when the input is valid under it *)
+Theorem accept_prefixed valid ks x e :
+  wf_keyset ks -> In e ks -> fenabled e = true -> fraw e = false ->
+  prefix_of e = firstn nonraw_prefix_size x -> valid e x = true ->
+  accept valid ks x = Some e.
+Proof.
+  intros W He En R P V. unfold accept, try_list. rewrite pm_matching_candidates. unfold candidates.
+  assert (Hin : In e (filter (cand_prefixed x) ks)).
+  { apply filter_In. split; auto. unfold cand_prefixed. rewrite En, R, P, beq_refl. reflexivity. }
+  pose proof (prefixed_candidate_unique ks x W) as U.
+  destruct (filter (cand_prefixed x) ks) as [|a [|b r]]; simpl in *.
+  - tauto.
+  - destruct Hin as [<-|[]]. rewrite V. reflexivity.
+  - lia.
+Qed.
+
+(* ... and when a RAW key answers, no enabled key with that prefix accepts the input *)
+Theorem accept_raw_only_after_prefixed valid ks x e :
+  accept valid ks x = Some e -> fraw e = true ->
+  forall e', In e' ks -> fenabled e' = true -> fraw e' = false ->
+             prefix_of e' = firstn nonraw_prefix_size x -> valid e' x = false.
+Proof.
+  intros A R e' He' En R' P. unfold accept, try_list in A.
+  rewrite pm_matching_candidates in A. unfold candidates in A. rewrite find_app in A.
+  destruct (find (fun e0 => valid e0 x) (filter (cand_prefixed x) ks)) as [a|] eqn:F.
+  - inversion A; subst a. apply find_some in F. destruct F as [F _].
+    apply filter_In in F. destruct F as [_ F]. unfold cand_prefixed in F. rewrite R in F.
+    destruct (fenabled e); simpl in F; discriminate.
+  - apply (find_none _ _ F). apply filter_In. split; auto.
+    unfold cand_prefixed. rewrite En, R', P, beq_refl. reflexivity.
+Qed.
+
 (* ---- primary ----------------------------------------------------------------- *)
 
 Lemma pick_primary_fold l : forall acc,
@@ -604,3 +636,127 @@ Section ConcreteProofs.
     intros H. unfold entry_produce. destruct (flegacy e); [eexists; reflexivity | apply H; reflexivity].
   Qed.
 End ConcreteProofs.
+
+(* ---- composition with the keyset manager model (C11) ------------------------------ *)
+
+Lemma fcount_prim_lift cls leg h : fcount_prim (map (lift cls leg) h) = count_prim h.
+Proof.
+  unfold fcount_prim, count_prim. induction h as [|a h IH]; simpl; auto.
+  destruct (eprim a); simpl; rewrite IH; reflexivity.
+Qed.
+
+Lemma fraw_lift cls leg e : fraw (lift cls leg e) = match ereq e with None => true | Some _ => false end.
+Proof. unfold fraw, lift. simpl. destruct (ereq e); auto. destruct (cls e); reflexivity. Qed.
+
+Definition ents_bounded (l : list entry) : Prop := forall e, In e l -> eid e < id_bound.
+
+Theorem lift_wf cls leg h :
+  wf_handle h -> ents_bounded h -> wf_keyset (map (lift cls leg) h).
+Proof.
+  intros [HE HC] HB. constructor.
+  - rewrite map_map. simpl. apply (ei_nodup _ HE).
+  - rewrite fcount_prim_lift. exact HC.
+  - intros e He Pe. apply in_map_iff in He. destruct He as (e0 & <- & He0).
+    unfold fenabled. simpl in *. rewrite (ei_prim_enabled _ HE e0 He0 Pe). reflexivity.
+  - intros e He Re. apply in_map_iff in He. destruct He as (e0 & <- & He0).
+    rewrite fraw_lift in Re. simpl. destruct (ereq e0) as [r|] eqn:Q; [|discriminate].
+    apply (ei_req _ HE e0 He0 r Q).
+  - intros e He. apply in_map_iff in He. destruct He as (e0 & <- & He0). simpl. auto.
+Qed.
+
+(* key ids stay uint32 along every history whose inputs are uint32 *)
+Definition op_bounded (o : op) : Prop :=
+  match o with OAddKey (Some id) _ => id < id_bound | _ => True end.
+
+Definition SB (s : state) : Prop :=
+  ents_bounded (ents (smgr s)) /\ Forall (fun x => x < id_bound) (stape s)
+  /\ (forall h, In h (shandles s) -> ents_bounded h).
+
+Lemma ents_bounded_sub l l' :
+  ents_bounded l -> (forall e, In e l' -> In (eid e) (map eid l)) -> ents_bounded l'.
+Proof.
+  intros H S e He. apply S in He. apply in_map_iff in He. destruct He as (e0 & <- & He0). auto.
+Qed.
+
+Lemma ents_bounded_snoc l e : ents_bounded l -> eid e < id_bound -> ents_bounded (l ++ [e]).
+Proof. intros H He x Hx. apply in_app_iff in Hx. destruct Hx as [Hx|[<-|[]]]; auto. Qed.
+
+Lemma add_fresh_bounded s b c k : SB s -> SB (fst (add_fresh s b c k)).
+Proof.
+  intros (HE & HT & HH). unfold add_fresh.
+  destruct (new_random_id (unavail (smgr s)) (stape s) 0) as [[[[id u'] t'] d]|] eqn:E; simpl;
+    [|repeat split; auto].
+  apply new_random_id_spec in E. destruct E as (_ & _ & _ & sk & Et & _ & _).
+  rewrite Et in HT. apply Forall_app in HT. destruct HT as [_ HT].
+  inversion HT as [|? ? Hid HT']; subst.
+  destruct c; simpl; repeat split; auto. apply ents_bounded_snoc; auto.
+Qed.
+
+Lemma step_bounded s o : SB s -> op_bounded o ->
+  SB (fst (step s o)) /\ (forall h, snd (step s o) = RHandle h -> ents_bounded h).
+Proof.
+  intros HS HO. pose proof HS as (HE & HT & HH).
+  assert (NH : forall b c k h, snd (add_fresh s b c k) <> RHandle h).
+  { intros b c k h. unfold add_fresh.
+    destruct (new_random_id _ _ _) as [[[[? ?] ?] ?]|]; [destruct c|]; simpl; discriminate. }
+  destruct o as [t|raw|req k|id|id|id|id| |n]; simpl.
+  - destruct t; try (split; [apply add_fresh_bounded; auto | intros h H; exfalso; eapply NH; eauto]);
+      (split; [exact HS | simpl; discriminate]).
+  - split; [apply add_fresh_bounded; auto | intros h H; exfalso; eapply NH; eauto].
+  - destruct req as [id|].
+    + simpl in HO. destruct (mem id (unavail (smgr s))); simpl; (split; [|discriminate]); auto.
+      repeat split; simpl; auto. apply ents_bounded_snoc; auto.
+    + split; [apply add_fresh_bounded; auto | intros h H; exfalso; eapply NH; eauto].
+  - destruct (find_entry (ents (smgr s)) id) as [e|]; [|split; [auto|discriminate]].
+    destruct (status_eqb (est e) Enabled); simpl; (split; [|discriminate]); auto.
+    repeat split; simpl; auto. eapply ents_bounded_sub; eauto. apply set_primary_ids_sub.
+  - destruct (find_entry (ents (smgr s)) id) as [e|]; [|split; [auto|discriminate]].
+    destruct (_ || _); simpl; (split; [|discriminate]); auto.
+    repeat split; simpl; auto. eapply ents_bounded_sub; eauto. apply set_status_ids_sub.
+  - destruct (find_entry (ents (smgr s)) id) as [e|]; [|split; [auto|discriminate]].
+    destruct (eprim e); [split; [auto|discriminate]|].
+    destruct (_ || _); simpl; (split; [|discriminate]); auto.
+    repeat split; simpl; auto. eapply ents_bounded_sub; eauto. apply set_status_ids_sub.
+  - destruct (find_entry (ents (smgr s)) id) as [e|]; [|split; [auto|discriminate]].
+    destruct (eprim e); simpl; (split; [|discriminate]); auto.
+    repeat split; simpl; auto. intros x Hx. apply HE. eapply delete_first_incl; eauto.
+  - unfold make_handle.
+    destruct (existsb _ _); [split; [auto|discriminate]|].
+    destruct (existsb eprim _); [|split; [auto|discriminate]]. simpl. split.
+    + repeat split; simpl; auto. intros h Hh. apply in_app_iff in Hh. destruct Hh as [Hh|[<-|[]]]; auto.
+    + intros h H. inversion H; subst. auto.
+  - destruct (nth_error (shandles s) n) as [h|] eqn:N; simpl; (split; [|discriminate]); auto.
+    repeat split; simpl; auto. apply HH. eapply nth_error_In; eauto.
+Qed.
+
+Lemma run_bounded ops : forall s s' rs h,
+  SB s -> Forall op_bounded ops -> run s ops = (s', rs) -> In (RHandle h) rs -> ents_bounded h.
+Proof.
+  induction ops as [|o ops IH]; simpl; intros s s' rs h HS HO H Hin.
+  - inversion H; subst. inversion Hin.
+  - inversion HO as [|? ? Ho HO']; subst.
+    destruct (step s o) as [s1 r] eqn:S1. destruct (run s1 ops) as [s2 rs2] eqn:R.
+    inversion H; subst. pose proof (step_bounded s o HS Ho) as [X Y]. rewrite S1 in X, Y. simpl in X, Y.
+    destruct Hin as [Hin|Hin]; [subst r; auto | eapply IH; eauto].
+Qed.
+
+Lemma init_bounded h0 tape :
+  (forall h, h0 = Some h -> ents_bounded h) -> Forall (fun x => x < id_bound) tape -> SB (init_state h0 tape).
+Proof.
+  intros H HT. destruct h0 as [h|]; simpl; repeat split; simpl; auto.
+  - intros x [<-|[]]. auto.
+  - intros e [].
+  - intros x [].
+Qed.
+
+(* after ANY manager history the handle is a well-formed keyset for the factories *)
+Theorem rotation_wf h0 tape ops s' rs h cls leg :
+  (forall h, h0 = Some h -> wf_handle h) -> (forall h, h0 = Some h -> ents_bounded h) ->
+  Forall (fun x => x < id_bound) tape -> Forall op_bounded ops ->
+  run (init_state h0 tape) ops = (s', rs) -> In (RHandle h) rs ->
+  wf_keyset (map (lift cls leg) h).
+Proof.
+  intros W B T O R Hin. apply lift_wf.
+  - eapply run_handles_wf; eauto. apply init_inv; auto.
+  - eapply run_bounded; eauto. apply init_bounded; auto.
+Qed.
